@@ -194,6 +194,14 @@ func (m *dsim) drawModules() {
 			if m.tp.Draw("d.empty", 8) == 7 && imp == "" {
 				body = ""
 			}
+			if m.tp.Draw("d.boundary", 6) == 5 {
+				// a file whose length is exactly at / just below / just above a copy-buffer size
+				want := []int{4096, 8192, 32768, 65536}[m.tp.Draw("d.boundarysize", 4)] + m.tp.Draw("d.boundarydelta", 3) - 1
+				for len(body) < want {
+					body += "// padding padding padding padding padding padding padding padding\n"
+				}
+				body = body[:want-1] + "\n"
+			}
 			md.files[p] = []byte(body)
 		}
 		// a module may vendor a well-known type; modules importing it then depend on this module
